@@ -27,7 +27,7 @@
                      newer file; read() adds 1 regardless and passes over that file.  Intended: add 1 only if the
                      current file is still there.
    With Defects = {} TLC proves the C13 formulas below; with a defect switched on it exhibits the counterexample. *)
-EXTENDS Integers, Sequences, FiniteSets, TLC
+EXTENDS Integers, Sequences, FiniteSets, TLC, FiniteSetsExt, SequencesExt     \* ...Ext: CommunityModules (folds, sorting)
 
 CONSTANTS Readers,      \* read-only RollLog objects, e.g. {"r1", "r2"}
           AutoRef,      \* the readers constructed with autorefresh=True
@@ -81,25 +81,19 @@ view == <<fsz, tsz, dir, data, nino, recsz, clock, lf, ridx, rf, closed, wfile, 
 NoEv == [act |-> "init", o |-> W, chunk |-> <<>>, newts |-> 0, existed |-> FALSE, unl |-> {}, wts |-> 0]
 
 (* ---------------------------------------------------------------------------------------------------------------- *)
-Min(S) == CHOOSE x \in S : \A y \in S : x <= y
-Max(S) == CHOOSE x \in S : \A y \in S : x >= y
+\* (Min and Max of a set of numbers: FiniteSetsExt)
 Ids(c) == {c[i] : i \in DOMAIN c}
-Last(s) == s[Len(s)]
 Names   == {t \in TsAll : dir[t] # 0}
 OnDisk  == UNION {Ids(data[dir[t]]) : t \in Names}              \* records reachable through a name
 SizeOf(t) == Len(data[dir[t]])
-RECURSIVE SumFiles(_, _, _)
-SumFiles(S, d, dt) == IF S = {} THEN 0 ELSE LET t == Min(S) IN Len(dt[d[t]]) + SumFiles(S \ {t}, d, dt)
-DiskTotalOf(d, dt) == SumFiles({t \in TsAll : d[t] # 0}, d, dt)
+DiskTotalOf(d, dt) == FoldSet(LAMBDA t, acc : acc + Len(dt[d[t]]), 0, {t \in TsAll : d[t] # 0})
 NewestSizeOf(d, dt) == LET S == {t \in TsAll : d[t] # 0} IN IF S = {} THEN 0 ELSE Len(dt[d[Max(S)]])
 
-RECURSIVE AscSeq(_)
-AscSeq(S) == IF S = {} THEN <<>> ELSE LET m == Min(S) IN <<m>> \o AscSeq(S \ {m})
+AscSeq(S) == SetToSortSeq(S, LAMBDA a, b : a < b)
 
 (* scan_logfiles (l.482-496): list the directory, timestamp from the name, size from stat, sorted. *)
 ScanLF == LET s == AscSeq(Names) IN [i \in 1..Len(s) |-> [ts |-> s[i], sz |-> SizeOf(s[i])]]
-RECURSIVE SumSz(_)
-SumSz(l) == IF l = <<>> THEN 0 ELSE l[1].sz + SumSz(Tail(l))
+SumSz(l) == FoldSeq(LAMBDA e, acc : acc + e.sz, 0, l)
 
 (* file.read() / file.readline() on an open file f = [ino, off, buf] (l.324).  readline returns up to and including
    the newline, i.e. to the end of the run of the id found at the offset.  Python's buffered reader fills its buffer
@@ -132,20 +126,21 @@ RefreshOf(l, S, f) ==
 
 Res(l, S, f, c) == [lf |-> l, ridx |-> S, rf |-> f, chunk |-> c]
 
-(* the `while True` loop of read() (l.302-341) for list l, self.read_idx = S < Len(l), self.read_file = f;
+(* (TLCEval: TLC passes operator arguments unevaluated; in a recursion that re-evaluates them at every level.)
+   the `while True` loop of read() (l.302-341) for list l, self.read_idx = S < Len(l), self.read_file = f;
    `auto`: the one autorefresh of this call has not been used yet. *)
 RECURSIVE RLoop(_, _, _, _, _)
 RLoop(l, S, f, auto, block) ==
   LET n == Len(l) IN
   IF f.ino = 0 THEN
     IF dir[l[S + 1].ts] # 0
-    THEN RLoop(l, S, [ino |-> dir[l[S + 1].ts], off |-> 0, buf |-> <<>>], auto, block)          \* l.305 open by NAME
+    THEN RLoop(l, S, TLCEval([ino |-> dir[l[S + 1].ts], off |-> 0, buf |-> <<>>]), auto, block)          \* l.305 open by NAME
     ELSE IF S + 1 >= n                                                            \* l.307-310 file is gone: skip it
          THEN IF ~auto THEN Res(l, S + 1, NoFile, <<>>)                           \* l.311
               ELSE LET r == RefreshOf(l, S + 1, NoFile) IN                        \* l.316
                    IF r.ridx >= Len(r.lf) THEN Res(r.lf, r.ridx, r.rf, <<>>)      \* l.318
-                   ELSE RLoop(r.lf, r.ridx, r.rf, FALSE, block)                   \* l.321
-         ELSE RLoop(l, S + 1, NoFile, auto, block)
+                   ELSE RLoop(TLCEval(r.lf), TLCEval(r.ridx), NoFile, FALSE, block)   \* l.321
+         ELSE RLoop(l, TLCEval(S + 1), NoFile, auto, block)
   ELSE
     LET rd == ReadFrom(f, block)  c == rd.c IN
     IF c # <<>> THEN Res(l, S, rd.f, c)                                           \* l.324-325
@@ -155,8 +150,8 @@ RLoop(l, S, f, auto, block) ==
                        L == IF "refresh_skip" \in Defects \/ r.rf.ino # 0         \* l.335: `self.read_idx + 1`
                             THEN r.ridx + 1 ELSE r.ridx
                    IN IF L >= Len(r.lf) THEN Res(r.lf, r.ridx, r.rf, <<>>)        \* l.336
-                      ELSE RLoop(r.lf, L, NoFile, FALSE, block)                   \* l.338-341
-         ELSE RLoop(l, S + 1, NoFile, auto, block)                                \* l.338-341 next file
+                      ELSE RLoop(TLCEval(r.lf), TLCEval(L), NoFile, FALSE, block) \* l.338-341
+         ELSE RLoop(l, TLCEval(S + 1), NoFile, auto, block)                       \* l.338-341 next file
 
 (* read() from the top (l.279-300). *)
 ReadRes(o, block) ==
@@ -165,17 +160,19 @@ ReadRes(o, block) ==
   THEN IF ~auto THEN Res(l, S, f, <<>>)                                           \* l.292
        ELSE LET r == RefreshOf(l, S, f) IN                                        \* l.297
             IF r.ridx >= Len(r.lf) THEN Res(r.lf, r.ridx, r.rf, <<>>)             \* l.299
-            ELSE RLoop(r.lf, r.ridx, r.rf, FALSE, block)
+            ELSE RLoop(TLCEval(r.lf), TLCEval(r.ridx), TLCEval(r.rf), FALSE, block)
   ELSE RLoop(l, S, f, auto, block)
 
 (* prune_logfiles (l.498-546) on list l: keep the newest, then older files while they fit; the first that does not
    fit and everything older is unlinked.  Result: cut = number of list entries removed from the front. *)
-RECURSIVE PruneCut(_, _, _)
-PruneCut(l, j, acc) ==       \* j: index (1-based) of the entry looked at, going down; acc: size kept so far
-  IF j = 0 THEN [cut |-> 0, total |-> acc]
-  ELSE IF acc + l[j].sz > tsz THEN [cut |-> j, total |-> acc]                     \* l.507-523
-       ELSE PruneCut(l, j - 1, acc + l[j].sz)                                     \* l.525
-PruneOf(l) == IF l = <<>> THEN [cut |-> 0, total |-> 0] ELSE PruneCut(l, Len(l) - 1, Last(l).sz)   \* l.503-504
+SuffixSz(l, j) == SumSz(SubSeq(l, j, Len(l)))                  \* size of the entries j..Len(l)
+PruneOf(l) ==
+  LET n   == Len(l)
+      \* the loop (l.506-525) walks down from n-1 while the kept suffix still fits; it stops at the first (largest) j
+      \* whose entry does not fit on top of the entries above it
+      bad == {j \in 1..(n - 1) : SuffixSz(l, j) > tsz}
+      cut == IF bad = {} THEN 0 ELSE Max(bad)
+  IN [cut |-> cut, total |-> IF n = 0 THEN 0 ELSE SuffixSz(l, cut + 1)]            \* l.530
 
 (* ---------------------------------------------------------------------------------------------------------------- *)
 InitRest ==
